@@ -48,6 +48,10 @@ class _Selector:
                 loop._vt = loop.vcap
                 raise SimTimeCap(f"virtual time cap {loop.vcap}s exceeded")
             loop._vt += timeout
+            # snap to the timer we are jumping to (float sums drift by an ulp otherwise)
+            sched = loop._scheduled
+            if sched and abs(sched[0]._when - loop._vt) < 1e-9:
+                loop._vt = sched[0]._when
         return []
 
     def close(self) -> None:
@@ -218,4 +222,7 @@ def sim_run(
     finally:
         _cleanup(loop)
     out.unhandled = list(loop.unhandled)
+    bad = [u for u in out.unhandled if u["message"].startswith("Exception in callback")]
+    if bad:
+        raise HarnessError(f"exception inside a loop callback: {bad[0]}")
     return out
